@@ -39,7 +39,7 @@ def main():
         return 2
     res = {"id": sid, "property": meta.get("property"), "kind": "harmless-refactor",
            "repo_head": sh(["git", "-C", "/repo", "rev-parse", "--short", "HEAD"])[1].strip()}
-    env = dict(os.environ, PYTHONPATH=wt, VERIF_REPO=wt)
+    env = dict(os.environ, PYTHONPATH=wt, VERIF_REPO=wt, VERIF_EVIDENCE_DIR="/tmp/sv/evidence")
     try:
         rc, out = sh(["git", "-C", wt, "apply", os.path.join(dst, "patch.diff")])
         if rc != 0:
